@@ -13,6 +13,7 @@ BOUNDS = {
     "quick": "D=4 / D=5 with an explicit complement of 3-4 coordinates in every order (covariance concrete, means and points symbolic); D=2 and D=3, every proper non-empty subset b in every order (condition_on) and with an explicit ordered complement (condition_on_explicit), R<=2, fully symbolic",
     "thorough": "adds D=4 with the covariance bound to generic rationals (means and points symbolic), R=3",
 }
+ASSUMPTIONS = ["index lists are static configuration (enumerated), parameter values and evaluation points are decided by the solver"]
 
 
 def cond_case(D, R, b_idx, a_idx=None, semi=(), timeout=400):
